@@ -212,18 +212,16 @@ def cases(shard, nshards, seed, tier):
 
 def _read(text, fmt, model):
     from rnapolis import parser
-    import tempfile
 
-    with tempfile.NamedTemporaryFile("w+", suffix="." + fmt, delete=False) as f:
+    # the same path is rewritten for every case (see emit.scratch_path)
+    path = emit.scratch_path("." + fmt)
+    with open(path, "w") as f:
         f.write(text)
-        path = f.name
     try:
         with open(path) as fh:
             return parser.read_3d_structure(fh, model)
     except Exception:
         return None
-    finally:
-        os.unlink(path)
 
 
 def run_case(case, rec):
